@@ -359,7 +359,8 @@ class Gen:
 
     def fresh(self, r):
         """the variable of the literal just returned by newdist (None for a shortcut)"""
-        return int(r[5:]) if r and r.startswith("lit +") and r != "lit +0" else None
+        r = (r or "").split(" | ")[0].strip()
+        return int(r[5:]) if r.startswith("lit +") and r != "lit +0" else None
 
     def retighten(self):
         """the SAME cell tightened two or three times within ONE level (directly and through a third point), then the level is
@@ -515,6 +516,178 @@ class Gen:
                     return
         while self.level > 0 and not self.dead:
             self.cmd(pop)
+
+    def negrel(self, real):
+        """a relation literal (strict or not, any coefficient form) is created while the network does not decide it, assigned FALSE or
+        TRUE (decision / unit clause at root / several enqueues at one level; with the real sat_core: unit clause, or a clause that
+        propagates it later), and then the boundary is probed: queries on the expression, new relations at the boundary and one unit
+        / one infinitesimal beside it, boundary constraints asserted together with it (must / must not conflict)"""
+        rng = self.rng
+        idl = self.theory == "idl"
+        self.init(rng.choice([3, 5, 16]))
+        self.new_vars(rng.randint(2, 4))
+        n = self.st.n
+        single = rng.random() < 0.35
+        x = rng.randrange(1, n)
+        y = 0 if single else rng.choice([v for v in range(1, n) if v != x])
+        c = Fraction(rng.choice([1, 1, -1, -1, 2, -2, 3, -3]))
+        if not idl and rng.random() < 0.3:
+            c *= rng.choice([Fraction(1, 2), Fraction(3, 2)])
+        mval = Fraction(rng.randint(-6, 9))
+        if not idl and rng.random() < 0.5:
+            mval += rng.choice([Fraction(1, 2), Fraction(-1, 2), Fraction(1, 3)])
+        k0 = -mval * c                                    # c*(x - y) + k0  r  0   <=>   x - y  r'  mval
+        k2 = self.rand_const(True) * (c if idl else 1)
+        form = rng.choice(["sides", "left", "swapped"]) if not single else rng.choice(["single", "single_swapped"])
+        if form == "sides":
+            left, right = self.lin_s([x], [c], k0 + k2), self.lin_s([y], [c], k2)
+        elif form == "left":
+            left, right = self.lin_s([x, y], [c, -c], k0 + k2), self.lin_s([], [], k2)
+        elif form == "swapped":
+            left, right = self.lin_s([y], [-c], k0 + k2), self.lin_s([x], [-c], k2)
+        elif form == "single":
+            left, right = self.lin_s([x], [c], 0), self.lin_s([], [], -k0)
+        else:
+            left, right = self.lin_s([], [], k0), self.lin_s([x], [-c], 0)
+        a, b = x, y
+
+        def bnd(val, e=0):
+            return str(int(val)) if idl else "%d/%d,%d/1" % (Fraction(val).numerator, Fraction(val).denominator, e)
+        # a background that leaves the relation undecided
+        for _ in range(rng.randint(0, 2)):
+            others = [(i, j) for i in range(n) for j in range(n) if i != j and {i, j} != {a, b}]
+            if others:
+                i, j = rng.choice(others)
+                r = self.cmd("newdist %d %d %s" % (i, j, self.dist_s()))
+        if rng.random() < 0.5:
+            self.cmd("newdist %d %d %s" % (b, a, bnd(mval + rng.randint(6, 9))))       # x_a - x_b <= far above
+            v0 = self.fresh(self.last)
+            if v0 is not None:
+                self.cmd(("sclause %d 1" if real else "assert %d 1") % v0)
+                if real:
+                    self.cmd("sprop")
+                elif not self.settle():
+                    return
+        # boundary constraints, created while everything is still undecided
+        pre = []
+        deltas = [(0, 0), (1, 0), (-1, 0)] + ([] if idl else [(0, 1), (0, -1)])
+        if not idl or mval.denominator == 1:
+            for dv, de in rng.sample(deltas, min(len(deltas), rng.choice([2, 3, 4]))):
+                pre.append(self.fresh(self.cmd("newdist %d %d %s" % (b, a, bnd(mval + dv, de)))))        # x_a - x_b <= m + delta
+                pre.append(self.fresh(self.cmd("newdist %d %d %s" % (a, b, bnd(-(mval + dv), -de)))))    # x_a - x_b >= m + delta
+        pre = [v for v in pre if v is not None]
+        rel = rng.choice(RELS)
+        self.cov["negrel_" + rel] = self.cov.get("negrel_" + rel, 0) + 1
+        if real:
+            self.cmd("sprop")
+        r0 = self.cmd("rel %s %s %s" % (rel, left, right))
+        v = self.fresh(r0)
+        pol = rng.randrange(2)
+        if rel == "eq":
+            pol = 1
+        scalings = [Fraction(1), Fraction(-1), Fraction(2), Fraction(-3)]
+
+        def probes(allow_eq):
+            for _ in range(rng.randint(3, 6)):
+                if self.dead:
+                    return
+                dv = rng.choice([0, 0, 1, -1])
+                t = rng.random()
+                sc = rng.choice(scalings)
+                if t < 0.45:
+                    r2 = rng.choice([q for q in RELS if allow_eq or q != "eq"])
+                    if single:
+                        self.cmd("rel %s %s %s" % (r2, self.lin_s([a], [sc], 0), self.lin_s([], [], sc * (mval + dv))))
+                    else:
+                        self.cmd("rel %s %s %s" % (r2, self.lin_s([a], [sc], 0), self.lin_s([b], [sc], sc * (mval + dv))))
+                elif t < 0.6:
+                    self.cmd("boundsl " + (self.lin_s([a], [sc], 0) if single else self.lin_s([a, b], [sc, -sc], sc * dv)))
+                elif t < 0.75:
+                    self.cmd("distl %s %s" % (self.lin_s([b], [1], 0) if not single else self.lin_s([], [], 0), self.lin_s([a], [1], 0)))
+                elif t < 0.9:
+                    self.cmd("equates %s %s" % (self.lin_s([a], [1], 0), self.lin_s([b], [1], mval + dv) if not single else self.lin_s([], [], mval + dv)))
+                else:
+                    self.cmd("dist %d %d" % (b, a))
+        if v is None:
+            probes(self.level == 0)
+            return
+        if real:
+            if rng.random() < 0.5 or rel == "eq":
+                self.cmd("sclause %d %d" % (v, pol))
+                r = self.cmd("sprop")
+                if r and r.startswith("false"):
+                    return
+            else:
+                z = self.fresh(self.cmd("newdist 0 %d %s" % (a, bnd(mval + 40))))
+                if z is None:
+                    return
+                self.cmd("sclause %d 0 %d %d" % (z, v, pol))
+                self.cmd("sprop")
+                if rng.random() < 0.5:
+                    probes(True)
+                self.cmd("sassume %d 1" % z)
+            probes(self.level == 0)
+            for w in pre:
+                if self.dead:
+                    return
+                if self.st.value(w) == "U" and rng.random() < 0.6:
+                    r = self.cmd("sassume %d %d" % (w, rng.randrange(2)))
+                    if r and r.startswith("false") and self.level == 0:
+                        return
+                    if rng.random() < 0.5:
+                        probes(self.level == 0)
+            und = [w for w in pre if self.st.value(w) == "U"]
+            if und:
+                self.cmd("scheck " + " ".join("%d %d" % (w, rng.randrange(2)) for w in rng.sample(und, min(2, len(und)))))
+            while self.level > 0 and not self.dead:
+                self.cmd("spop")
+            probes(True)
+            return
+        if rel == "eq" and v not in self.st.V:
+            probes(True)
+            return
+        mode = rng.choice(["assume", "assert", "multi", "multi"])
+        if mode == "assert":
+            self.cmd("assert %d %d" % (v, pol))
+            if not self.settle():
+                return
+            probes(True)
+        elif mode == "assume":
+            self.cmd("assume %d %d" % (v, pol))
+            if not self.settle():
+                return
+            probes(False)
+        if mode != "multi":
+            for w in pre:
+                if self.dead:
+                    return
+                if self.st.value(w) == "U" and rng.random() < 0.7:
+                    self.cmd("assume %d %d" % (w, rng.randrange(2)))
+                    if not self.settle():
+                        return
+                    if rng.random() < 0.4:
+                        probes(False)
+        # the literal and boundary constraints seen by the theory within ONE level: must / must not conflict
+        while self.level > 0 and not self.dead:
+            self.cmd("pop")
+        for _ in range(rng.randint(2, 4)):
+            if self.dead or self.st.value(v) != "U":
+                break
+            und = [w for w in pre if self.st.value(w) == "U"]
+            if not und:
+                break
+            ws = rng.sample(und, min(len(und), rng.choice([1, 1, 2])))
+            seq = [(v, pol)] + [(w, rng.randrange(2)) for w in ws]
+            if rng.random() < 0.5:
+                seq.reverse()
+            self.cmd("push")
+            for w, sg in seq:
+                self.cmd("enq %d %d" % (w, sg))
+            self.cmd("drain")
+            if not self.conflict_pending() and rng.random() < 0.5:
+                probes(False)
+            self.cmd("pop")
+        probes(True)
 
     def rel(self, count):
         rng = self.rng
